@@ -79,6 +79,16 @@ Definition listed (c : cfg) (ty : bytes) : bool := existsb (beqb ty) (c_sign_typ
 Definition must_sign (c : cfg) (ty : bytes) : option (bytes -> sres) :=
   match c_signer c with Some sg => if listed c ty then Some sg else None | None => None end.
 
+(* FormatterFilter.Rotate: installs a new signer; a nil signer is refused and changes nothing.  The signer is the only state
+   of the node: every later Process call is judged under the signer in force at that call. *)
+Definition rotate (c : cfg) (s : option (bytes -> sres)) : cfg * bool :=
+  match s with
+  | None => (c, false)
+  | Some sg =>
+      ({| c_source := c_source c; c_schema := c_schema c; c_format := c_format c; c_pred := c_pred c;
+          c_signer := Some sg; c_sign_types := c_sign_types c |}, true)
+  end.
+
 Section CloudEvents.
   Variable P : Type.
   Variable p_id : P -> option bytes.      (* None: the payload does not implement ID; Some s: what ID() returns *)
